@@ -31,6 +31,9 @@ def key(f):
 
 def main():
     br = sys.argv[1]
+    if git("status", "--porcelain").stdout.strip():
+        print("refusing: working tree dirty (commit or revert first)")
+        sys.exit(1)
     ours, theirs = load_at("HEAD"), load_at(br)
     r = git("merge", "--no-edit", br, check=False)
     print(r.stdout[-2000:], r.stderr[-2000:])
